@@ -178,9 +178,15 @@ DED["C05"] = ("interpolation.__resampleTemporal: the resampling loop as a REGION
               "produce an observation, one each and in order (ghost index lists), none is dropped; for an arbitrary produced observation the "
               "bracketing fixes satisfy T[r-1] < t <= T[r], its x, y, z are the barycentric combination with weights (T[r]-t)/(T[r]-T[r-1]) and "
               "(t-T[r-1])/(T[r]-T[r-1]) of the two bracketing fixes, and its timestamp is readUnixTime(t): well-formed and within 1 ms (C03); the "
-              "inner while loop terminates and never indexes past the last fix.",
-              "building T, prepareTimeSampling (number / list / reference track), setObsList, Track.resample's front end and the whole spatial "
-              "resampling (__resampleSpatial: abscissas k*ds on the 2-D polyline, non-decreasing timestamps): bounded only.")
+              "inner while loop terminates and never indexes past the last fix. interpolation.__resampleSpatial: the sampling loop as a REGION "
+              "contract over the cumulated-length list S (non-decreasing), the step ds > 0 and the sample count N with N ds within the length: "
+              "the result is a copy of the first fix followed by exactly one sample per k = 1..N; sample k lies on the segment r with "
+              "S[r-1] < k ds <= S[r] (so the divisor S[r] - S[r-1] is never 0, repeated positions included), its two weights are in [0, 1] and "
+              "sum to 1, its x, y (on the polyline), z (height) and epoch time are the barycentric combination of the segment's ends, and it is "
+              "stamped with that time to the millisecond (C03).",
+              "building T / S, N = floor(length / ds) in floats, prepareTimeSampling (number / list / reference track), setObsList, "
+              "Track.resample's front end, and the clause 'timestamps never decrease' of the spatial mode (it follows from the proved "
+              "interpolation formula and sorted input times, but is not itself a discharged obligation): bounded only.")
 DED["C13"] = ("TrackWriter.writeToFile's column placement (REGION: the data-order slice, list.sort trusted): for every admissible assignment of "
               "column indices the sorted order list has in position c the pair (c, d), d being the place in the printed data list [E, N, (U), (T)] "
               "of the field whose column id is c - each datum is written in the column the reader takes it from.",
